@@ -21,6 +21,7 @@ def levels(tier):
             {"name": "n3", "n": 3, "alphabet": ["we", "delwe", "page", "reopen", "clear"]},
             {"name": "rule-restart", "n": 3, "prelude": [["page", 1, False]], "alphabet": ["rule", "reopen", "page"], "rule_patterns": ["path1"]},
             {"name": "n4-small", "n": 4, "alphabet": ["we", "delwe", "reopen", "page"], "pool": POOL[:2]},
+            {"name": "attach-n3", "n": 3, "prelude": [["we", [[0, 1]]]], "alphabet": ["we", "addprefix", "moveprefix", "page"], "pool": POOL[:2]},
         ]
     return [
         {"name": "n3", "n": 3, "alphabet": alpha, "links_batch": 2, "rule_patterns": ["path1", "subdomain"], "we_two_prefixes": True},
